@@ -13,11 +13,10 @@ from .. import core
 OPS = ["sum", "prod", "max", "min"]
 TYS = ["u", "i", "d"]
 PATNAMES = {0: "random", 1: "sorted", 2: "reversed", 3: "constant", 4: "two-values", 5: "extremes", 6: "16-values",
-            7: "small-random", 9: "mostly-maximum"}
-SAFE_SORT_PATS = [0, 0, 1, 2, 5, 6, 7]           # patterns that cannot contain > cutoff equal elements
-RISKY_SORT_PATS = [3, 4, 9]                      # constant / two values / mostly the maximum
-KNOWN_SIG = "qsort-constant-above-cutoff"
-AP_HANG_SIG = "allpairs-hang-multiworker-shepherds"
+            7: "small-random", 9: "mostly-maximum", 10: "strided-two-values"}
+SAFE_SORT_PATS = [0, 0, 1, 2, 5, 6, 7, 3, 4, 9]  # incl. constant / two values / mostly the maximum (pivot = maximum rule)
+RISKY_SORT_PATS = [3, 4, 9]
+STALL_SIG = "qsort-partition-stall"
 LOOP_CHUNK = 10000
 FUEL, WFUEL = 120, 64
 
@@ -30,15 +29,18 @@ def lengths_for(w):
     return sorted(s)
 
 
-def run_batch(exe, env, lines, per_case_timeout=150, watchdog=None):
+def run_batch(exe, env, lines, per_case_timeout=150, watchdog=None, max_fail=None):
     """run the harness over `lines`; a crash or watchdog ends the process: the case at that position gets
     'CRASH rc'/'TIMEOUT' and the rest is run in a fresh process.  returns (header, [result line per input line])"""
     results = []
     header = None
     pos = 0
     guard = 0
+    nfail = 0
     while pos < len(lines) and guard < 40:
         guard += 1
+        if max_fail is not None and nfail >= max_fail:
+            break
         chunk = lines[pos:]
         e2 = dict(env)
         if watchdog:
@@ -58,8 +60,9 @@ def run_batch(exe, env, lines, per_case_timeout=150, watchdog=None):
         if pos < len(lines) and done < len(chunk):
             results.append("TIMEOUT" if (body and body[-1] == "TIMEOUT") or rc == -9 else "CRASH rc=%s" % rc)
             pos += 1
+            nfail += 1
     while len(results) < len(lines):
-        results.append("CRASH not-run")
+        results.append("SKIPPED" if max_fail is not None and nfail >= max_fail else "CRASH not-run")
     return header, results
 
 
@@ -122,10 +125,18 @@ def sort_cases(rng, quick):
 
 
 def risky_sort_cases(rng, quick):
-    """inputs of the known-finding class (and its neighbours); the model decides which ones diverge"""
-    cs = [("qutil", 3, 10001), ("aligned", 3, 10001), ("qt", 3, 10001)]
+    """inputs of the open finding qsort-partition-stall (the model decides: OutOfFuel in the walls loop)"""
+    cs = [("qutil", 10, 40058)]
     if not quick:
-        cs += [("qutil", 9, 10001), ("aligned", 4, 20003), ("qt", 9, 15000), ("qutil", 3, 40001), ("aligned", 9, 25000)]
+        cs += [("aligned", 10, 40058), ("qutil", 10, 40061)]
+    return [(w, p, n, 0) for (w, p, n) in cs]
+
+
+def pivot_rule_cases(rng, quick):
+    """constant / mostly-maximum / two-valued inputs above the cutoff: hung before the pivot-is-maximum fix"""
+    cs = [("qutil", 3, 10001), ("aligned", 3, 10001), ("qt", 3, 10001), ("qutil", 9, 10001), ("aligned", 4, 20003), ("qt", 9, 15000)]
+    if not quick:
+        cs += [("qutil", 3, 40001), ("aligned", 9, 25000), ("qt", 4, 30001), ("qutil", 4, 40001)]
     return [(w, p, n, rng.next() >> 1) for (w, p, n) in cs]
 
 
@@ -205,13 +216,12 @@ def run(ctx):
                 model_cache[c] = o
         return [model_cache[c] for c in cmds]
 
-    sorts = [tuple(c) for c in corpus.get("sort", [])] + sort_cases(rng.fork(), quick)
+    sorts = [tuple(c) for c in corpus.get("sort", [])] + pivot_rule_cases(rng.fork(), quick) + sort_cases(rng.fork(), quick)
+    npin = len(corpus.get("sort", [])) + len(pivot_rule_cases(core.Splitmix(1), quick))
     risky = [tuple(c) for c in corpus.get("risky", [])] + risky_sort_cases(rng.fork(), quick)
     qreds = [tuple(c) for c in corpus.get("qutil_red", [])] + qutil_red_cases(rng.fork(), quick)
     aps = [tuple(c) for c in corpus.get("ap", [])] + ap_cases(rng.fork(), quick)
     hang_budget = 3 if quick else 8
-    ap_probe_budget = 1 if quick else 3
-    ap_hangs = []
     hangs_seen = []          # known-class cases where model (OutOfFuel) and implementation (watchdog) agree
 
     for ci, (ns, nw) in enumerate(configs):
@@ -253,16 +263,16 @@ def run(ctx):
         if not quick or ci == 3:
             scs = sorts
         elif ci == 1:
-            scs = sorts[:len(corpus.get("sort", []))] + sorts[len(corpus.get("sort", []))::2]
+            scs = sorts[:npin] + sorts[npin::2]
         else:
-            scs = [c for c in sorts if c[2] <= 10001 or c[0] == "qt"][ci % 4::4]
+            scs = sorts[:npin][ci % 2::2] + [c for c in sorts[npin:] if c[2] <= 10001 or c[0] == "qt"][ci % 4::4]
         mo_s = model([model_sort_cmd(c, ns, cacheline) for c in scs])
         term = [(c, mo) for c, mo in zip(scs, mo_s) if mo != "s outoffuel"]
         for c, mo in zip(scs, mo_s):
             if mo == "s outoffuel":      # a generated "safe" case the model says diverges: treat like the risky ones
                 risky.append(c)
         t0 = time.time()
-        header, iout = run_batch(exe, env, ["sort %s %d %d %d 60" % c for c, _ in term])
+        header, iout = run_batch(exe, env, ["sort %s %d %d %d 25" % c for c, _ in term], max_fail=3)
         tick("impl:sort", t0)
         for (c, mo), io in zip(term, iout):
             evals += 1
@@ -271,6 +281,9 @@ def run(ctx):
             if c[2] > LOOP_CHUNK and c[0] != "merge" and not (c[0] == "qt" and ns == 1):
                 nontrivial.add(("sort",) + c + (ns if c[0] == "qt" else 0,))
             p = io.split()
+            if p[0] == "SKIPPED":
+                evals -= 1
+                continue
             if p[0] != "s":
                 mism.append(("sort-" + p[0].lower(), dict(d, impl=io, model=mo)))
                 ofail.append((None, "%s did not return (%s); the model terminates" % (d["function"], io), d))
@@ -313,24 +326,6 @@ def run(ctx):
                         if p[3] != "1" or p[4] != "1":
                             ofail.append((None, "%s left the array unsorted or with different elements" % d["function"], d))
         # ------------------------------------------------------------ allpairs
-        if ns >= 2 and nw >= 2:
-            # known finding (open): with >= 2 shepherds and >= 2 workers per shepherd qt_allpairs intermittently never
-            # returns (scheduler starvation of a yield-waiting task).  Probe it with a short watchdog; the regular
-            # correspondence runs on the other configurations.
-            if ap_probe_budget > 0:
-                ap_probe_budget -= 1
-                for attempt in range(3):
-                    evals += 1
-                    _, io = run_batch(exe, env, ["ap 20 30 1024 1 %d" % attempt], per_case_timeout=8, watchdog=4)
-                    if io[0] == "TIMEOUT":
-                        ap_hangs.append({"function": "qt_allpairs", "array1": {"count": 20}, "array2": {"count": 30}, "unit_size": 1024,
-                                         "seg_pages": 1, "distribution": "FIXED_HASH", "config": [ns, nw],
-                                         "harness_command": "ap 20 30 1024 1 %d" % attempt})
-                        break
-                    p = io[0].split()
-                    if p[0] != "a" or " bad=0 " not in io[0] or " active=0 " not in io[0]:
-                        ofail.append((None, "qt_allpairs: " + io[0][:120], {"config": [ns, nw], "harness_command": "ap 20 30 1024 1 %d" % attempt}))
-            continue
         header, iout = run_batch(exe, env, ["ap %d %d %d %d %d" % c for c in aps])
         acmds = []
         for c, io in zip(aps, iout):
@@ -373,8 +368,8 @@ def run(ctx):
                         "allpairs with >= 2 work units.  lengths {1,2,3,w-1,w,w+1,9,10,11,9999,10000,10001,20001,20002,40001,...} x patterns "
                         "(random, sorted, reversed, constant, two values, extremes, 16 values) x types (aligned_t, saligned_t, double) x operators",
                    traces_validated_against_impl=evals, input_distribution=hist, configs=configs,
-                   correspondence_mismatches=len(mism), known_class_hangs_reproduced=len(hangs_seen), allpairs_hangs_reproduced=len(ap_hangs),
-                   refuted_on_current_tree=["qsort_const_refuted"])
+                   correspondence_mismatches=len(mism), known_class_hangs_reproduced=len(hangs_seen),
+                   refuted_on_current_tree=["qsort_partition_stall_refuted"])
     ctx.assumptions += ["the sort used below the parallel cutoff (libc qsort, drf_qsort_dbl/_algt) is a correct sort (Section hypothesis; "
                         "compared with the real code on every run)",
                         "inputs contain no NaN and no -0.0; worker counts < 65536",
@@ -382,12 +377,9 @@ def run(ctx):
     broken = bool(mism) or not pr["ok"]
     unknown = [(w_, c) for (s, w_, c) in ofail if s is None]
     if not broken:
-        if ap_hangs:
-            ctx.violation(AP_HANG_SIG, "qt_allpairs did not return within the watchdog on a configuration with >= 2 shepherds and >= 2 workers "
-                          "per shepherd (all pairs processed, generator never finishes)", ap_hangs[0])
         if hangs_seen:
-            ctx.violation(KNOWN_SIG, "parallel quicksort does not terminate: median-of-three pivot equals the maximum of a segment longer "
-                          "than the cutoff (model: OutOfFuel; implementation: no return within the watchdog)", hangs_seen[0])
+            ctx.violation(STALL_SIG, "parallel quicksort does not terminate: a partition pass leaves both walls in place and the "
+                          "while (rightwall - leftwall > threshold) loop repeats it (model: OutOfFuel; implementation: no return within the watchdog)", hangs_seen[0])
         for (w_, c) in unknown[:3]:
             ctx.violation("unlisted:" + w_.split()[0], w_, c)
     else:
